@@ -45,6 +45,10 @@ def TDefects.asWas : TDefects := ⟨true, true, true, true, true, true⟩
 /-- /repo's current HEAD -/
 def TDefects.asIs : TDefects := ⟨true, true, true, false, true, true⟩
 def TDefects.repaired : TDefects := ⟨false, false, false, false, false, false⟩
+/-- the flags after the three checker patches that leave /repo's own tests passing (numeric-only literal
+retyping, nil closure body, nil type under `AsBool`); the loose index rule and the static slice types of
+`filter`/`map` are relied upon by /repo's tests and stay -/
+def TDefects.safeFix : TDefects := ⟨false, true, false, false, true, false⟩
 
 inductive Expect where
   | none | bool | int64 | float64
